@@ -38,6 +38,7 @@ structure D where
 /-- the request a reaction answers -/
 structure ReqCtx where
   m : Meth
+  cseq : Nat
   auth : Bool
   tp : Nat
 
@@ -57,7 +58,7 @@ def parseIl (s : String) : Option (Nat × Nat) :=
 /-- what the correct scripted server answers to a request (the environment, not the client) -/
 def correctResp (srvAuth : Bool) (q : ReqCtx) : Resp :=
   if srvAuth && q.m != .options && !q.auth then
-    { status := 401, www := .valid, ct := .missing, sdpOk := false, tr := { present := false } }
+    { cseq := .num q.cseq, status := 401, www := .valid, ct := .missing, sdpOk := false, tr := { present := false } }
   else
     let sess : SessK := match q.m with
       | .setup | .play | .record | .pause | .teardown => .good 1
@@ -67,7 +68,7 @@ def correctResp (srvAuth : Bool) (q : ReqCtx) : Resp :=
       else if q.tp ≥ 10 then { tcp := true, interleaved := some (q.tp - 10, q.tp - 9), serverPorts := .none }
       else if q.tp == 2 then { delivery := .multicast, serverPorts := .none }
       else {}
-    { sess := sess, tr := tr,
+    { cseq := .num q.cseq, sess := sess, tr := tr,
       ct := if q.m == .describe then .ok else .missing,
       sdpOk := q.m == .describe }
 
@@ -84,7 +85,7 @@ def parseResp (srvAuth : Bool) (q : ReqCtx) (fields : List String) : Resp :=
     match m.lookup k with
     | none => dflt
     | some v => f v
-  { cseq := o "cs" d.cseq fun v => match v with | "w" => .wrong | "m" => .missing | "d" => .dup | _ => .good
+  { cseq := o "cs" d.cseq fun v => match v with | "w" => .garbage | "m" => .missing | "d" => .dup | _ => .num q.cseq
     status := o "st" d.status fun v => v.toNat?.getD 200
     sess := sess
     www := o "au" d.www fun v => match v with | "v" => .valid | "i" => .invalid | _ => .none
@@ -143,14 +144,14 @@ def drain (d : D) : D := Id.run do
   let mut d := d
   for o in d.st.out do
     match o with
-    | .sent m _ _ au tp =>
+    | .sent m cs _ au tp =>
       let mn := methName m
       let occ := (d.nmeth.lookup mn).getD 0 + 1
       d := { d with nreq := d.nreq + 1, nmeth := (mn, occ) :: d.nmeth }
       let raw := match d.reacts.lookup (mn, occ) with
         | some r => r
         | none => (d.reacts.lookup ("*", d.nreq)).getD "r"
-      d := { d with inbox := d.inbox ++ parseEvs d.srvAuth { m := m, auth := au, tp := tp } raw }
+      d := { d with inbox := d.inbox ++ parseEvs d.srvAuth { m := m, cseq := cs, auth := au, tp := tp } raw }
     | .dial => d := { d with inbox := [] }
     | _ => pure ()
   return { d with log := d.log ++ d.st.out, st := { d.st with out := [] } }
